@@ -176,7 +176,9 @@ pub fn check_c17(r: &InitRun) -> Option<(String, String)> {
         Ev::Delay { .. } => false,
         _ => true,
     };
-    let soft_resets = r.ctl.cmds.iter().filter(|c| c.op == 0x01 && !c.opaque_page).count();
+    // opcode 0x01 anywhere on the bus counts, also while a vendor command page is selected: on the wire
+    // it is the software-reset opcode, and no built-in init sequence has a legitimate use for it
+    let soft_resets = r.ctl.cmds.iter().filter(|c| c.op == 0x01).count();
     if cfg.rst {
         // phase machine: expect RST low, delays summing to >= 10 us, RST high; no bus event before
         let mut phase = 0;
